@@ -373,8 +373,17 @@ class Dex:
                 # make every coordinate of the mutant differ from the target so the mask is observable
                 same = V == Xt
                 V = np.where(same, np.where(Xt == xl, xu, xl), V)
+            int_targets = bool(rng.randint(7) == 0)
+            if int_targets:
+                # integer-coded target population (integer dtype) crossed with real-valued mutants
+                xl = rng.randint(-3, 3, size=d).astype(float)
+                xu = xl + rng.randint(1, 5, size=d)
+                Xt = np.floor(xl + rng.random_sample((n_mat, d)) * (xu - xl + 1))
+                Xt = np.minimum(np.maximum(Xt, xl), xu)
+                V = xl + (0.05 + 0.9 * rng.random_sample((n_mat, d))) * (xu - xl)
             yield {"variant": ["bin", "exp"][t % 2], "CR": gen_CR(rng), "alo": bool(rng.randint(8) > 0),
                    "as_callable": bool(rng.randint(6) == 0), "bad_variant": bool(rng.randint(40) == 0),
+                   "int_targets": int_targets,
                    "xl": xl, "xu": xu, "Xt": Xt, "V": V, "seed": int(rng.randint(2**31 - 1))}
 
     @staticmethod
@@ -388,11 +397,13 @@ class Dex:
         from pymoo.core.population import Population
         from pymoode.operators.dex import DEX
         from pymoode.operators.variant import DifferentialVariant
-        rec = Record("dex", {k: case.get(k) for k in ("variant", "CR", "alo", "as_callable", "bad_variant", "seed")},
+        rec = Record("dex", {k: case.get(k) for k in ("variant", "CR", "alo", "as_callable", "bad_variant", "seed", "int_targets")},
                      {k: case[k] for k in ("xl", "xu", "Xt", "V")})
         Xt = np.array(case["Xt"], dtype=float, copy=True)
         V = np.array(case["V"], dtype=float, copy=True)
-        pop = Population.new("X", Xt.copy())
+        pop = Population.new("X", Xt.astype(np.int64) if case.get("int_targets") else Xt.copy())
+        if case.get("int_targets"):
+            rec.tags.add("int-dtype-targets")
         mut = Population.new("X", V.copy())
         prob = _mkprob(case["xl"], case["xu"], Xt.shape[1])
         np.random.seed(case["seed"])
@@ -619,16 +630,17 @@ def ranks_eff(ranks, n):
     return [i if r is None else r for i, r in enumerate(ranks)]
 
 
-def check_selection(kind, P, n_pop, n_par, ranks):
-    """C09 predicate on a parent matrix."""
+def check_selection(kind, P, n_pop, n_par, ranks, n_sel=None):
+    """C09 predicate on a parent matrix (one row per target; the targets are the first n_sel individuals)."""
     bad = []
     P = np.asarray(P)
-    if P.shape != (n_pop, n_par):
-        return ["parent matrix shape %s, expected %s" % (P.shape, (n_pop, n_par))]
+    n_sel = n_pop if n_sel is None else n_sel
+    if P.shape != (n_sel, n_par):
+        return ["parent matrix shape %s, expected %s" % (P.shape, (n_sel, n_par))]
     if P.min() < 0 or P.max() >= n_pop:
         return ["parent index out of range: min %d max %d, population %d" % (P.min(), P.max(), n_pop)]
     reff = ranks_eff(ranks, n_pop)
-    for i in range(n_pop):
+    for i in range(n_sel):
         row = [int(x) for x in P[i]]
         if kind in ("rand", "ranked"):
             rnd = list(range(n_par))
@@ -678,7 +690,10 @@ class Des:
             kind = SELECTIONS[t % 6]
             n_par = int(rng.choice([3, 5, 7]))
             n_pop = n_par + int(rng.randint(1, 9))
-            yield {"kind": kind, "n_pop": n_pop, "n_par": n_par, "ranks": gen_ranks(rng, n_pop),
+            # fewer matings than individuals (accepted with a warning): parents are still drawn from the whole population
+            # (the 'current-to-*' layouts refuse this call with a ValueError; the others accept it)
+            n_sel = n_pop if (rng.randint(4) or kind.startswith("current")) else int(rng.randint(1, n_pop + 1))
+            yield {"kind": kind, "n_pop": n_pop, "n_sel": n_sel, "n_par": n_par, "ranks": gen_ranks(rng, n_pop),
                    "via": ["_do", "do"][rng.randint(2)], "seed": int(rng.randint(2**31 - 1))}
 
     @staticmethod
@@ -713,10 +728,11 @@ class Des:
                 with warnings.catch_warnings(record=True) as w:
                     warnings.simplefilter("always")
                     sel = DES(case["kind"])
+                    n_sel = case.get("n_sel", case["n_pop"])
                     if case["via"] == "_do":
-                        P = sel._do(None, pop, case["n_pop"], case["n_par"])
+                        P = sel._do(None, pop, n_sel, case["n_par"])
                     else:
-                        P = sel.do(None, pop, case["n_pop"], case["n_par"], to_pop=False)
+                        P = sel.do(None, pop, n_sel, case["n_par"], to_pop=False)
                     if any("Unknown selection" in str(x.message) for x in w):
                         rec.frames.append("selection variant not recognised")
                 rec.out["P"] = np.array(P, dtype=int)
@@ -738,7 +754,7 @@ class Des:
     def encode(rec):
         c = rec.cfg
         rk = [-1] * c["n_pop"] if c["ranks"] is None else [-1 if r is None else r for r in c["ranks"]]
-        return " ".join(["des", c["kind"], str(c["n_pop"]), str(c["n_pop"]), str(c["n_par"])] + proto.ilist(rk)
+        return " ".join(["des", c["kind"], str(c["n_pop"]), str(c.get("n_sel", c["n_pop"])), str(c["n_par"])] + proto.ilist(rk)
                         + proto.events(rec.draws))
 
     @staticmethod
@@ -762,7 +778,13 @@ class Des:
         if rec.err is not None:
             return ["DES raised: " + rec.err]
         c = rec.cfg
-        return list(rec.frames) + check_selection(c["kind"], rec.out["P"], c["n_pop"], c["n_par"], c["ranks"])
+        bad = list(rec.frames) + check_selection(c["kind"], rec.out["P"], c["n_pop"], c["n_par"], c["ranks"], c.get("n_sel"))
+        # every draw of a parent index is taken over the whole population (C19: uniform over the individuals)
+        for ev in rec.draws:
+            if getattr(ev, "name", None) == "choice" and len(ev.args) and int(ev.args[0]) != c["n_pop"]:
+                bad.append("a parent index was drawn from %d individuals, the population has %d" % (int(ev.args[0]), c["n_pop"]))
+                break
+        return bad
 
 
 Des.ORACLES = {"C09": Des.oracle_C09, "C19": Des.oracle_C09}
